@@ -92,7 +92,10 @@ pub fn grid() -> Vec<Cell> {
                 push(format!("depth_limit={depth}"), o, c.clone(), true);
             }
             // preset dictionaries (headerless LZMA / LZMA2 / also given to containers that cannot carry one)
-            for (pname, pd) in [("empty", Vec::new()), ("1-byte", vec![b'x']), ("oversized", vec![b'a'; (1 << 16) + 4000])] {
+            // the oversized one is not constant: which part of it the two sides keep must matter
+            let varied: Vec<u8> = (0..(1u32 << 16) + 4000).map(|i| (i.wrapping_mul(2654435761) >> 13) as u8).collect();
+            let fits: Vec<u8> = varied[..3000].to_vec();
+            for (pname, pd) in [("empty", Vec::new()), ("1-byte", vec![b'x']), ("3000-bytes", fits), ("oversized", varied)] {
                 let mut o = base(normal);
                 o.preset_dict = Some(pd);
                 let carried = matches!(c, Container::LzmaRawMarker | Container::Lzma2 { .. });
@@ -236,6 +239,14 @@ pub fn run_case(ctx: &Ctx, idx: u64) -> Vec<CaseOut> {
             "100KiB-random" => gen::gen_data(&mut r, Family::Random, len),
             _ => gen::gen_data(&mut r, Family::Text, len),
         };
+        let mut data = data;
+        if let Some(pd) = &cell.spec.o.preset_dict {
+            // the input starts with what the preset dictionary ends with, so that matches reach into it
+            if pd.len() > 64 && data.len() >= 1024 {
+                let k = (data.len() / 2).min(2000).min(pd.len());
+                data[..k].copy_from_slice(&pd[pd.len() - k..]);
+            }
+        }
         let cname = format!("{}|{}|{}", cell.writer, cell.field, iname);
         let fieldclass = cell.field.split(" [").next().unwrap_or(&cell.field).to_string();
         let desc = format!("{} with {} ({}), input {iname}: {}", cell.writer, cell.field, if cell.in_range { "documented range" } else { "outside the documented range" }, cell.spec.desc());
